@@ -999,10 +999,10 @@ def specData [ScalarFns α] (P : Problem α) (i : String) : List (OutData α α)
 def specIndiv [ScalarFns α] (P : Problem α) (shared : Option (List (Event α))) (i : String) : Indiv α :=
   ⟨i, specData P i, regOf P shared i⟩
 
-theorem indivOf_intended [ScalarFns α] (P : Problem α) (shared : Option (List (Event α))) (i : String) :
-    indivOf Legacy.intended P shared i = specIndiv P shared i := by
+theorem indivOf_asIs [ScalarFns α] (P : Problem α) (shared : Option (List (Event α))) (i : String) :
+    indivOf Legacy.asIs P shared i = specIndiv P shared i := by
   unfold indivOf specIndiv dataOf specData
-  simp only [Legacy.intended, Bool.not_false, outData_sorted]
+  simp only [Legacy.asIs, Bool.not_false, outData_sorted]
 
 theorem getLogPosterior_spec [ScalarFns α] (lg : Legacy) (P : Problem α) (sel : Option RawId)
     (shared : Option (List (Event α))) (post : Posterior α) (shEnd : Option (List (Event α)))
@@ -1054,16 +1054,16 @@ theorem getLogPosterior_spec [ScalarFns α] (lg : Legacy) (P : Problem α) (sel 
             exact ⟨i, rfl, h.1.symm⟩
           | cons j js => simp at h
 
-/-- **C14 (the posterior, as the property demands it).** With rows ordered by time before they are
-    checked, a one-element list kept as a list, and the selector cleaned like the ID column, whatever
-    `get_log_posterior` returns is the posterior assembled by hand: in the hierarchical case the
+/-- **C14 (the posterior, for the code as it is).** Whatever `get_log_posterior` returns is the
+    posterior assembled by hand (that it does return one for every frame that describes a posterior
+    is `C14_posterior_exists`): in the hierarchical case the
     likelihoods of ALL individuals in order of first appearance, each built from exactly its own
     measurements (per output: those of the mapped observable, by time) and its own regimen, with the
     covariate matrix row `k` belonging to likelihood `k`; without a population model the likelihood
     of the selected individual (the first one when none is selected). -/
 theorem C14_posterior [ScalarFns α] (P : Problem α) (sel : Option RawId)
     (shared : Option (List (Event α))) (post : Posterior α) (shEnd : Option (List (Event α)))
-    (h : getLogPosterior Legacy.intended P sel shared = .ok (post, shEnd)) :
+    (h : getLogPosterior Legacy.asIs P sel shared = .ok (post, shEnd)) :
     (P.hasPop = true → ∃ cov, post = .hier (P.ids.map (specIndiv P shared)) cov ∧
       (P.covNames = [] → cov = none) ∧
       (P.covNames ≠ [] → ∃ M : Mat α, cov = some (M.toLists P.ids.length P.covNames.length) ∧
@@ -1076,7 +1076,7 @@ theorem C14_posterior [ScalarFns α] (P : Problem α) (sel : Option RawId)
   · intro hpop
     obtain ⟨cov, hc1, hc2, hc3⟩ := h1 hpop
     refine ⟨cov, ?_, hc2, fun hne => ?_⟩
-    · rw [hc1]; congr 1; apply List.map_congr_left; intro i _; exact indivOf_intended P shared i
+    · rw [hc1]; congr 1; apply List.map_congr_left; intro i _; exact indivOf_asIs P shared i
     · obtain ⟨M, hM, hcov⟩ := hc3 hne
       exact ⟨M, hcov, fun k hk j hj => by
         obtain ⟨b, v, hb, hv, hm, _⟩ := C14_covariates_aligned _ _ _ _ M hM k hk j hj
@@ -1085,7 +1085,7 @@ theorem C14_posterior [ScalarFns α] (P : Problem α) (sel : Option RawId)
     obtain ⟨i, hsel, hpost⟩ := h2 hpop
     unfold selectIds at hsel
     simp only [hpop, Bool.false_eq_true, if_false] at hsel
-    refine ⟨i, ?_, by rw [hpost, indivOf_intended], ?_, ?_⟩
+    refine ⟨i, ?_, by rw [hpost, indivOf_asIs], ?_, ?_⟩
     · cases sel with
       | none =>
         cases hP : P.ids with
@@ -1095,7 +1095,7 @@ theorem C14_posterior [ScalarFns α] (P : Problem α) (sel : Option RawId)
           simp only [Except.ok.injEq, List.cons.injEq, and_true] at hsel
           rw [← hsel]; exact List.mem_cons_self
       | some s =>
-        simp only [selectId, Legacy.intended, Bool.false_eq_true, if_false] at hsel
+        simp only [selectId, Legacy.asIs, Bool.false_eq_true, if_false] at hsel
         by_cases hk : s.key ∈ P.ids
         · simp only [hk, if_true, Except.ok.injEq, List.cons.injEq, and_true] at hsel
           rw [← hsel]; exact hk
@@ -1111,14 +1111,14 @@ theorem C14_posterior [ScalarFns α] (P : Problem α) (sel : Option RawId)
         simp [hsel]
     · intro s hs
       subst hs
-      simp only [selectId, Legacy.intended, Bool.false_eq_true, if_false] at hsel
+      simp only [selectId, Legacy.asIs, Bool.false_eq_true, if_false] at hsel
       by_cases hk : s.key ∈ P.ids
       · simp only [hk, if_true, Except.ok.injEq, List.cons.injEq, and_true] at hsel
         exact hsel.symm
       · simp only [hk, if_false] at hsel
         cases hsel
 
-/-! ## the code as it is: where it coincides with the posterior the property demands, and where not -/
+/-! ## the pre-fix controller: where it coincided with the code as it is, and where not -/
 
 /-- the frame is time-ordered within every individual and observable -/
 def TimeOrdered (P : Problem ℝ) : Prop := ∀ i b, TimeSorted (specRows P.data i b)
@@ -1153,20 +1153,21 @@ theorem createLLs_congr [ScalarFns α] (lg lg' : Legacy) (P : Problem α)
       intro sh; unfold createLL; rw [outputsData_congr lg lg' P i (h i)]
     simp only [this, ih]
 
-/-- **C14 for the code as it is (partial).** If (a) the rows of every individual and observable appear
-    in the frame in non-decreasing time order, (b) a population model is not combined with exactly one
-    individual, and (c) an individual is selected by the string form of its ID, then the unchanged
-    controller returns exactly what the intended one returns — i.e. (by `C14_posterior`) the posterior
-    assembled by hand. Each hypothesis is needed: `C14_unsorted_counterexample`,
-    `C14_single_individual_counterexample`, `C14_selector_counterexample`. -/
-theorem C14_posterior_partial (P : Problem ℝ) (sel : Option RawId) (shared : Option (List (Event ℝ)))
+/-- **The pre-fix controller (before a5c706c, d654081, 614a431), kept for the record.** If (a) the rows
+    of every individual and observable appear in the frame in non-decreasing time order, (b) a
+    population model is not combined with exactly one individual, and (c) an individual is selected by
+    the string form of its ID, then the pre-fix controller returned exactly what the code as it is
+    returns. Each hypothesis was needed: `C14_unsorted_counterexample`,
+    `C14_single_individual_counterexample`, `C14_selector_counterexample`. The code as it is needs
+    none of them (`C14_posterior`, `C14_posterior_exists`, `C14_posterior_of_frame`). -/
+theorem C14_prefix_posterior_partial (P : Problem ℝ) (sel : Option RawId) (shared : Option (List (Event ℝ)))
     (hord : TimeOrdered P) (hn : P.hasPop = true → P.ids.length ≠ 1)
     (hsel : ∀ s, sel = some s → ∃ t, s = .str t) :
-    getLogPosterior Legacy.asIs P sel shared = getLogPosterior Legacy.intended P sel shared := by
-  have hc := createLLs_congr Legacy.asIs Legacy.intended P (fun i b => by
-    simp only [Legacy.asIs, Legacy.intended, Bool.not_true, Bool.not_false]
+    getLogPosterior Legacy.preFix P sel shared = getLogPosterior Legacy.asIs P sel shared := by
+  have hc := createLLs_congr Legacy.preFix Legacy.asIs P (fun i b => by
+    simp only [Legacy.preFix, Legacy.asIs, Bool.not_true, Bool.not_false]
     exact outData_eq_of_ordered P.data i b (hord i b))
-  have hs : selectIds Legacy.asIs P sel = selectIds Legacy.intended P sel := by
+  have hs : selectIds Legacy.preFix P sel = selectIds Legacy.asIs P sel := by
     unfold selectIds
     cases sel with
     | none => rfl
@@ -1175,10 +1176,10 @@ theorem C14_posterior_partial (P : Problem ℝ) (sel : Option RawId) (shared : O
       rfl
   unfold getLogPosterior
   rw [hs]
-  rcases hsi : selectIds Legacy.intended P sel with x | il
+  rcases hsi : selectIds Legacy.asIs P sel with x | il
   · rfl
   · simp only [hc]
-    rcases createLLs Legacy.intended P il shared with x | ⟨lls, e2⟩
+    rcases createLLs Legacy.asIs P il shared with x | ⟨lls, e2⟩
     · rfl
     · simp only
       by_cases hpop : P.hasPop = true
@@ -1188,7 +1189,7 @@ theorem C14_posterior_partial (P : Problem ℝ) (sel : Option RawId) (shared : O
           exact hsi.symm
         have : (il.length == 1) = false := by
           rw [hil]; simpa using hn hpop
-        simp [hpop, Legacy.asIs, Legacy.intended, this]
+        simp [hpop, Legacy.preFix, Legacy.asIs, this]
       · simp [hpop]
 
 /-- the controller's state for a frame with the four columns ID, Time, Observable, Value -/
@@ -1196,55 +1197,57 @@ def exProblem (rows : List (String × ℝ × ℝ)) (idl : List String) (pop : Bo
   ⟨rows.map (fun r => ⟨r.1, some r.2.1, some "conc", some r.2.2, none, none⟩), idl, ["out"],
    [("out", "conc")], [], [], none, pop⟩
 
-/-- **#25.** Individual `1` measured at `t = 2` (value 1) and then at `t = 1` (value 2): the unchanged
-    controller raises `ValueError`; ordered by time the posterior is that of `(1, 2), (2, 1)`. -/
+/-- **#25 (fixed by a5c706c).** Individual `1` measured at `t = 2` (value 1) and then at `t = 1`
+    (value 2): the pre-fix controller raised `ValueError`; the code as it is orders by time and builds
+    the posterior of `(1, 2), (2, 1)`. -/
 theorem C14_unsorted_counterexample :
-    getLogPosterior Legacy.asIs (exProblem [("1", 2, 1), ("1", 1, 2)] ["1"] false) none none
+    getLogPosterior Legacy.preFix (exProblem [("1", 2, 1), ("1", 1, 2)] ["1"] false) none none
       = .error .valueError ∧
-    getLogPosterior Legacy.intended (exProblem [("1", 2, 1), ("1", 1, 2)] ["1"] false) none none
+    getLogPosterior Legacy.asIs (exProblem [("1", 2, 1), ("1", 1, 2)] ["1"] false) none none
       = .ok (.single ⟨"1", [⟨[1, 2], [2, 1]⟩], none⟩, none) ∧
     ¬ TimeOrdered (exProblem [("1", 2, 1), ("1", 1, 2)] ["1"] false) := by
   refine ⟨?_, ?_, ?_⟩
   · norm_num [getLogPosterior, selectIds, createLLs, setRegimen, createLL, outputsData, outData, rowsFor,
-      maskRows, exProblem, Legacy.asIs, timesAccepted, adjacentOk, List.lookup, List.filterMap_cons, List.filter_cons]
+      maskRows, exProblem, Legacy.preFix, timesAccepted, adjacentOk, List.lookup, List.filterMap_cons, List.filter_cons]
   · norm_num [getLogPosterior, selectIds, createLLs, setRegimen, createLL, outputsData, outData, rowsFor,
-      maskRows, exProblem, Legacy.intended, timesAccepted, adjacentOk, List.lookup, sortByTime, insertByTime, List.filterMap_cons, List.filter_cons]
+      maskRows, exProblem, Legacy.asIs, timesAccepted, adjacentOk, List.lookup, sortByTime, insertByTime, List.filterMap_cons, List.filter_cons]
   · intro h
     have := h "1" "conc"
     norm_num [TimeSorted, specRows, contrib, exProblem, List.filterMap_cons] at this
 
-/-- **#26.** A population model and a frame with one individual: `TypeError` in the unchanged
-    controller; intended: a hierarchical posterior over that one individual. -/
+/-- **#26 (fixed by d654081).** A population model and a frame with one individual: `TypeError` in the
+    pre-fix controller; the code as it is: a hierarchical posterior over that one individual. -/
 theorem C14_single_individual_counterexample :
-    getLogPosterior Legacy.asIs (exProblem [("1", 1, 1), ("1", 2, 2)] ["1"] true) none none
+    getLogPosterior Legacy.preFix (exProblem [("1", 1, 1), ("1", 2, 2)] ["1"] true) none none
       = .error .typeError ∧
-    getLogPosterior Legacy.intended (exProblem [("1", 1, 1), ("1", 2, 2)] ["1"] true) none none
+    getLogPosterior Legacy.asIs (exProblem [("1", 1, 1), ("1", 2, 2)] ["1"] true) none none
       = .ok (.hier [⟨"1", [⟨[1, 2], [1, 2]⟩], none⟩] none, none) := by
   constructor
   · norm_num [getLogPosterior, selectIds, createLLs, setRegimen, createLL, outputsData, outData, rowsFor,
-      maskRows, exProblem, Legacy.asIs, timesAccepted, adjacentOk, List.lookup, List.filterMap_cons, List.filter_cons]
+      maskRows, exProblem, Legacy.preFix, timesAccepted, adjacentOk, List.lookup, List.filterMap_cons, List.filter_cons]
   · norm_num [getLogPosterior, selectIds, createLLs, setRegimen, createLL, outputsData, outData, rowsFor,
-      maskRows, exProblem, Legacy.intended, timesAccepted, adjacentOk, List.lookup, sortByTime, insertByTime, List.filterMap_cons, List.filter_cons]
+      maskRows, exProblem, Legacy.asIs, timesAccepted, adjacentOk, List.lookup, sortByTime, insertByTime, List.filterMap_cons, List.filter_cons]
 
-/-- **#18.** IDs `1, 2` written as integers: selecting individual `2` by the integer raises in the
-    unchanged controller (only the string `"2"` works); intended: the integer selects it. -/
+/-- **#18 (fixed by 614a431).** IDs `1, 2` written as integers: selecting individual `2` by the integer
+    raised in the pre-fix controller (only the string `"2"` worked); the code as it is: the integer
+    selects it. -/
 theorem C14_selector_counterexample :
-    getLogPosterior Legacy.asIs (exProblem [("1", 1, 1), ("2", 2, 2)] ["1", "2"] false) (some (.int 2)) none
+    getLogPosterior Legacy.preFix (exProblem [("1", 1, 1), ("2", 2, 2)] ["1", "2"] false) (some (.int 2)) none
       = .error .valueError ∧
-    getLogPosterior Legacy.asIs (exProblem [("1", 1, 1), ("2", 2, 2)] ["1", "2"] false) (some (.str "2")) none
+    getLogPosterior Legacy.preFix (exProblem [("1", 1, 1), ("2", 2, 2)] ["1", "2"] false) (some (.str "2")) none
       = .ok (.single ⟨"2", [⟨[2], [2]⟩], none⟩, none) ∧
-    getLogPosterior Legacy.intended (exProblem [("1", 1, 1), ("2", 2, 2)] ["1", "2"] false) (some (.int 2)) none
+    getLogPosterior Legacy.asIs (exProblem [("1", 1, 1), ("2", 2, 2)] ["1", "2"] false) (some (.int 2)) none
       = .ok (.single ⟨"2", [⟨[2], [2]⟩], none⟩, none) := by
   have h12 : ("1" : String) ≠ "2" := by decide
   have h12' : ¬ ("1" : String) = "2" := h12
   refine ⟨?_, ?_, ?_⟩
-  · simp [getLogPosterior, selectIds, selectId, exProblem, Legacy.asIs]
+  · simp [getLogPosterior, selectIds, selectId, exProblem, Legacy.preFix]
   · norm_num [getLogPosterior, selectIds, selectId, createLLs, setRegimen, createLL, outputsData, outData,
-      rowsFor, maskRows, exProblem, Legacy.asIs, timesAccepted, adjacentOk, List.lookup, List.filterMap_cons,
+      rowsFor, maskRows, exProblem, Legacy.preFix, timesAccepted, adjacentOk, List.lookup, List.filterMap_cons,
       List.filter_cons, h12']
   · have : RawId.key (.int 2) = "2" := by decide
     norm_num [getLogPosterior, selectIds, selectId, createLLs, setRegimen, createLL, outputsData, outData,
-      rowsFor, maskRows, exProblem, Legacy.intended, timesAccepted, adjacentOk, List.lookup, sortByTime,
+      rowsFor, maskRows, exProblem, Legacy.asIs, timesAccepted, adjacentOk, List.lookup, sortByTime,
       insertByTime, this, List.filterMap_cons, List.filter_cons, h12']
 
 /-! ## `set_data`: the state the assembly starts from -/
@@ -1337,6 +1340,363 @@ theorem C14_set_data [Div α] [ScalarFns α] (cfg : Config) (raw : List (RawRow 
           obtain ⟨b, hb, _⟩ := checkObsMap_spec _ _ _ om ho o ho'
           exact ⟨b, hb⟩
 
+
+/-! ## the order of the rows of the frame is irrelevant (the code as it is) -/
+
+theorem insertByTime_filter (p : ℝ × ℝ) (l : List (ℝ × ℝ)) (hs : TimeSorted l) (t : ℝ) :
+    (insertByTime p l).filter (fun q => decide (q.1 = t)) =
+      (if p.1 = t then [p] else []) ++ l.filter (fun q => decide (q.1 = t)) := by
+  induction l with
+  | nil => by_cases h : p.1 = t <;> simp [insertByTime, h]
+  | cons q qs ih =>
+    have hs' := List.pairwise_cons.mp hs
+    unfold insertByTime
+    simp only [lt_real, decide_eq_true_eq]
+    by_cases hlt : q.1 < p.1
+    · rw [if_pos hlt, List.filter_cons, ih hs'.2, List.filter_cons]
+      by_cases hq : q.1 = t
+      · have hp : ¬ p.1 = t := fun h => by rw [h, ← hq] at hlt; exact lt_irrefl _ hlt
+        simp [hq, hp]
+      · simp [hq]
+    · rw [if_neg hlt, List.filter_cons]
+      by_cases hp : p.1 = t <;> simp [hp]
+
+/-- **C14 (measurements ordered by time, ties in frame order).** What the controller hands to the
+    likelihood is a rearrangement of the individual's measurements that is non-decreasing in time
+    and keeps measurements taken at the same time in the order of the frame (`sort_values(kind='stable')`). -/
+theorem C14_sorted_rows (l : List (ℝ × ℝ)) :
+    (sortByTime l).Perm l ∧ TimeSorted (sortByTime l) ∧
+    ∀ t, (sortByTime l).filter (fun q => decide (q.1 = t)) = l.filter (fun q => decide (q.1 = t)) := by
+  refine ⟨sortByTime_perm l, sortByTime_sorted l, fun t => ?_⟩
+  induction l with
+  | nil => rfl
+  | cons p ps ih =>
+    unfold sortByTime
+    rw [insertByTime_filter p _ (sortByTime_sorted ps) t, ih, List.filter_cons]
+    by_cases hp : p.1 = t <;> simp [hp]
+
+/-- **C14 (fully shuffled frames — the code as it is).** Permuting the rows of the frame in any way
+    permutes, for every individual and observable, only measurements that share their time; if no two
+    different measurements of an individual and observable share a time, the data handed to the
+    likelihood is literally the same. (Before a5c706c such frames were rejected:
+    `C14_unsorted_counterexample`.) -/
+theorem C14_row_order_irrelevant (d d' : List (Row ℝ)) (h : d.Perm d') (i b : String) :
+    (sortByTime (specRows d i b)).Perm (sortByTime (specRows d' i b)) ∧
+    ((∀ p ∈ specRows d i b, ∀ q ∈ specRows d i b, p.1 = q.1 → p = q) →
+      sortByTime (specRows d i b) = sortByTime (specRows d' i b)) := by
+  have hp : (specRows d i b).Perm (specRows d' i b) := h.filterMap _
+  have hperm : (sortByTime (specRows d i b)).Perm (sortByTime (specRows d' i b)) :=
+    (sortByTime_perm _).trans (hp.trans (sortByTime_perm _).symm)
+  refine ⟨hperm, fun hinj => ?_⟩
+  refine List.Perm.eq_of_pairwise ?_ (sortByTime_sorted _) (sortByTime_sorted _) hperm
+  intro a c ha hc h1 h2
+  have ha' := (sortByTime_perm _).subset ha
+  have hc' := hp.symm.subset ((sortByTime_perm _).subset hc)
+  exact hinj a ha' c hc' (le_antisymm h1 h2)
+
+/-! ## unrelated rows do not change the posterior (any variant of the controller) -/
+
+theorem outData_relevant [ScalarFns α] (obsL covL : List String) (d d' : List (Row α))
+    (h : d'.filter (relevant obsL covL) = d.filter (relevant obsL covL)) (srt : Bool) (i b : String)
+    (hb : b ∈ obsL) : outData srt d' i b = outData srt d i b := by
+  have : rowsFor d' i b = rowsFor d i b := by
+    rw [rowsFor_eq, rowsFor_eq, ← specRows_relevant obsL covL d' i b hb, h, specRows_relevant obsL covL d i b hb]
+  unfold outData
+  rw [this]
+
+theorem outputsData_data [ScalarFns α] (lg : Legacy) (P : Problem α) (d' : List (Row α)) (i : String)
+    (h : ∀ o b, P.obsMap.lookup o = some b → ∀ srt, outData srt d' i b = outData srt P.data i b) :
+    ∀ os, outputsData lg { P with data := d' } i os = outputsData lg P i os := by
+  intro os
+  induction os with
+  | nil => rfl
+  | cons o os ih =>
+    unfold outputsData
+    rw [ih]
+    simp only
+    rcases hb : P.obsMap.lookup o with _ | b
+    · rfl
+    · simp only [h o b hb]
+
+theorem createLLs_data [ScalarFns α] (lg : Legacy) (P : Problem α) (d' : List (Row α))
+    (h : ∀ i o b, P.obsMap.lookup o = some b → ∀ srt, outData srt d' i b = outData srt P.data i b) :
+    ∀ il shared, createLLs lg { P with data := d' } il shared = createLLs lg P il shared := by
+  intro il
+  induction il with
+  | nil => intro shared; rfl
+  | cons i is ih =>
+    intro shared
+    unfold createLLs
+    have h1 : ∀ sh, createLL lg { P with data := d' } i sh = createLL lg P i sh := by
+      intro sh; unfold createLL; rw [outputsData_data lg P d' i (h i)]
+    have h2 : setRegimen { P with data := d' } i shared = setRegimen P i shared := rfl
+    simp only [h1, h2, ih]
+
+theorem fillCol_data (d d' : List (Row α)) (b : String) (idc : Nat)
+    (h : ∀ i, covValues d' b i = covValues d b i) :
+    ∀ is idn (M : Mat α), fillCol d' b idc is idn M = fillCol d b idc is idn M := by
+  intro is
+  induction is with
+  | nil => intro idn M; rfl
+  | cons i is ih =>
+    intro idn M
+    unfold fillCol
+    rw [h i]
+    rcases covValues d b i with _ | ⟨v, _ | ⟨w, ws⟩⟩
+    · rfl
+    · exact ih _ _
+    · rfl
+
+theorem fillAll_data (d d' : List (Row α)) (covMap : List (String × String)) (idl : List String)
+    (h : ∀ c b, covMap.lookup c = some b → ∀ i, covValues d' b i = covValues d b i) :
+    ∀ cs idc (M : Mat α), fillAll d' covMap idl cs idc M = fillAll d covMap idl cs idc M := by
+  intro cs
+  induction cs with
+  | nil => intro idc M; rfl
+  | cons c cs ih =>
+    intro idc M
+    unfold fillAll
+    rcases hb : covMap.lookup c with _ | b
+    · rfl
+    · simp only [fillCol_data d d' b idc (h c b hb)]
+      rcases fillCol d b idc idl 0 M with x | M1
+      · rfl
+      · exact ih _ _
+
+/-- **C14 (the result is unaffected by unrelated rows, observables and missing values).** Replace the
+    frame behind the controller's state by any frame with the same relevant rows in the same order
+    (rows of other observables, rows with missing value / time / dose, ID-only rows inserted or removed
+    anywhere; IDs and regimens as `set_data` computes them are unchanged by such rows, see
+    `C14_irrelevant_rows`, `C14_irrelevant_rows_ids`): `get_log_posterior` returns the same posterior —
+    same individuals, same data per output, same regimens, same covariate matrix — or the same error. -/
+theorem C14_posterior_irrelevant_rows [ScalarFns α] (lg : Legacy) (P : Problem α) (d' : List (Row α))
+    (obsL covL : List String) (hobs : ∀ o b, P.obsMap.lookup o = some b → b ∈ obsL)
+    (hcov : ∀ c b, P.covMap.lookup c = some b → b ∈ covL)
+    (h : d'.filter (relevant obsL covL) = P.data.filter (relevant obsL covL))
+    (sel : Option RawId) (shared : Option (List (Event α))) :
+    getLogPosterior lg { P with data := d' } sel shared = getLogPosterior lg P sel shared := by
+  have hc := createLLs_data lg P d' (fun i o b hb srt => outData_relevant obsL covL P.data d' h srt i b (hobs o b hb))
+  have he : extractCovariates d' P.covMap P.ids P.covNames = extractCovariates P.data P.covMap P.ids P.covNames := by
+    unfold extractCovariates
+    apply fillAll_data
+    intro c b hb i
+    rw [covValues_eq, covValues_eq, ← specCov_relevant obsL covL d' b i (hcov c b hb), h,
+      specCov_relevant obsL covL P.data b i (hcov c b hb)]
+  unfold getLogPosterior
+  have hs : selectIds lg { P with data := d' } sel = selectIds lg P sel := rfl
+  rw [hs]
+  rcases selectIds lg P sel with x | il
+  · rfl
+  · simp only [hc, he]
+
+/-! ## every frame that describes a posterior yields it (the code as it is) -/
+
+/-- what `set_data` guarantees about the state (`C14_set_data`), plus non-negative measurement times
+    (a contract of `chi.LogLikelihood`) -/
+structure WellFormed (P : Problem ℝ) : Prop where
+  outputs : ∀ o ∈ P.outputs, ∃ b, P.obsMap.lookup o = some b
+  regimens : ∀ regs, P.regimens = some regs → ∀ i ∈ P.ids, ∃ r, regs.lookup i = some r
+  covs : ∀ c ∈ P.covNames, ∃ b, P.covMap.lookup c = some b ∧ ∀ i ∈ P.ids, (specCov P.data b i).length = 1
+  times : ∀ r ∈ P.data, ∀ t, r.time = some t → 0 ≤ t
+
+theorem adjacentOk_of_sorted : ∀ (l : List ℝ), l.Pairwise (· ≤ ·) →
+    adjacentOk (fun a b => ScalarFns.lt a b) l = true
+  | [], _ => rfl
+  | [_], _ => rfl
+  | a :: b :: rest, h => by
+    have h' := List.pairwise_cons.mp h
+    unfold adjacentOk
+    simp only [lt_real, Bool.and_eq_true, Bool.not_eq_eq_eq_not, Bool.not_true, decide_eq_false_iff_not, not_lt]
+    exact ⟨h'.1 b List.mem_cons_self, adjacentOk_of_sorted (b :: rest) h'.2⟩
+
+theorem timesAccepted_sorted (d : List (Row ℝ)) (i b : String)
+    (hn : ∀ r ∈ d, ∀ t, r.time = some t → 0 ≤ t) :
+    timesAccepted (outData true d i b).times = true := by
+  rw [outData_sorted]
+  unfold timesAccepted
+  simp only [Bool.and_eq_true, List.all_eq_true]
+  constructor
+  · intro t ht
+    obtain ⟨p, hp, rfl⟩ := List.mem_map.mp ht
+    have hp' := (sortByTime_perm _).subset hp
+    unfold specRows at hp'
+    obtain ⟨r, hr, hc⟩ := List.mem_filterMap.mp hp'
+    have := ((C14_rows d i b).2.2 r p.1 p.2).mp hc
+    have h0 := hn r hr p.1 this.2.2.1
+    simp only [lt_real, ofNat_real, Nat.cast_zero, Bool.not_eq_eq_eq_not, Bool.not_true,
+      decide_eq_false_iff_not, not_lt]
+    exact h0
+  · apply adjacentOk_of_sorted
+    have := sortByTime_sorted (specRows d i b)
+    unfold TimeSorted at this
+    exact List.pairwise_map.mpr this
+
+theorem outputsData_ok (P : Problem ℝ) (i : String) :
+    ∀ (os : List String), (∀ o ∈ os, ∃ b, P.obsMap.lookup o = some b) →
+      (∀ r ∈ P.data, ∀ t, r.time = some t → 0 ≤ t) →
+      ∃ data, outputsData Legacy.asIs P i os = .ok data ∧
+        data.all (fun o => timesAccepted o.times) = true := by
+  intro os
+  induction os with
+  | nil => intro _ _; exact ⟨[], rfl, rfl⟩
+  | cons o os ih =>
+    intro ho hn
+    obtain ⟨b, hb⟩ := ho o List.mem_cons_self
+    obtain ⟨rest, hr, hacc⟩ := ih (fun o' h' => ho o' (List.mem_cons_of_mem _ h')) hn
+    refine ⟨outData true P.data i b :: rest, ?_, ?_⟩
+    · unfold outputsData
+      rw [hb]
+      simp only [hr]
+      rfl
+    · simp only [List.all_cons, Bool.and_eq_true]
+      exact ⟨timesAccepted_sorted P.data i b hn, hacc⟩
+
+theorem setRegimen_ok (P : Problem ℝ) (hw : WellFormed P) (i : String) (hi : i ∈ P.ids)
+    (shared : Option (List (Event ℝ))) : ∃ sh, setRegimen P i shared = .ok sh := by
+  unfold setRegimen
+  have := hw.regimens
+  generalize P.regimens = R at this ⊢
+  rcases R with _ | (_ | ⟨r, rs⟩)
+  · exact ⟨shared, rfl⟩
+  · exact ⟨shared, rfl⟩
+  · obtain ⟨e, he⟩ := this (r :: rs) rfl i hi
+    exact ⟨some e, by simp only [he]⟩
+
+theorem createLLs_ok (P : Problem ℝ) (hw : WellFormed P) :
+    ∀ (il : List String), (∀ i ∈ il, i ∈ P.ids) → ∀ shared,
+      ∃ lls shEnd, createLLs Legacy.asIs P il shared = .ok (lls, shEnd) := by
+  intro il
+  induction il with
+  | nil => intro _ shared; exact ⟨[], shared, rfl⟩
+  | cons i is ih =>
+    intro hmem shared
+    obtain ⟨sh, hsh⟩ := setRegimen_ok P hw i (hmem i List.mem_cons_self) shared
+    obtain ⟨data, hd, hacc⟩ := outputsData_ok P i P.outputs hw.outputs hw.times
+    obtain ⟨rest, e2, hr⟩ := ih (fun j hj => hmem j (List.mem_cons_of_mem _ hj)) sh
+    refine ⟨⟨i, data, sh⟩ :: rest, e2, ?_⟩
+    unfold createLLs
+    rw [hsh]
+    simp only
+    have : createLL Legacy.asIs P i sh = .ok ⟨i, data, sh⟩ := by
+      unfold createLL
+      rw [hd]
+      simp only [hacc, if_true]
+    rw [this]
+    simp only [hr]
+
+theorem fillCol_ok (d : List (Row ℝ)) (b : String) (idc : Nat) :
+    ∀ (is : List String), (∀ i ∈ is, (specCov d b i).length = 1) → ∀ idn (M : Mat ℝ),
+      ∃ M', fillCol d b idc is idn M = .ok M' := by
+  intro is
+  induction is with
+  | nil => intro _ idn M; exact ⟨M, rfl⟩
+  | cons i is ih =>
+    intro h idn M
+    have h1 := h i List.mem_cons_self
+    rw [← covValues_eq] at h1
+    rcases hv : covValues d b i with _ | ⟨v, _ | ⟨w, ws⟩⟩
+    · rw [hv] at h1; simp at h1
+    · obtain ⟨M', hM'⟩ := ih (fun j hj => h j (List.mem_cons_of_mem _ hj)) (idn + 1) (M.set idn idc v)
+      exact ⟨M', by unfold fillCol; rw [hv]; exact hM'⟩
+    · rw [hv] at h1; simp at h1
+
+theorem fillAll_ok (d : List (Row ℝ)) (covMap : List (String × String)) (idl : List String) :
+    ∀ (cs : List String), (∀ c ∈ cs, ∃ b, covMap.lookup c = some b ∧ ∀ i ∈ idl, (specCov d b i).length = 1) →
+      ∀ idc (M : Mat ℝ), ∃ M', fillAll d covMap idl cs idc M = .ok M' := by
+  intro cs
+  induction cs with
+  | nil => intro _ idc M; exact ⟨M, rfl⟩
+  | cons c cs ih =>
+    intro h idc M
+    obtain ⟨b, hb, hone⟩ := h c List.mem_cons_self
+    obtain ⟨M1, hM1⟩ := fillCol_ok d b idc idl hone 0 M
+    obtain ⟨M', hM'⟩ := ih (fun c' hc' => h c' (List.mem_cons_of_mem _ hc')) (idc + 1) M1
+    exact ⟨M', by unfold fillAll; rw [hb]; simp only [hM1, hM']⟩
+
+/-- **C14 (a posterior is returned for every frame that describes one — the code as it is).**
+    After a successful `set_data` (`WellFormed`, see `C14_set_data`), for rows in ANY order — time-ordered
+    within an individual or not —, for any number of individuals including one with a population model,
+    and for any selector whose string form is one of the IDs (an integer, a float or a string):
+    `get_log_posterior` does not raise. With `C14_posterior` this is the full property. -/
+theorem C14_posterior_exists (P : Problem ℝ) (hw : WellFormed P) (sel : Option RawId)
+    (shared : Option (List (Event ℝ)))
+    (hsel : P.hasPop = false → (sel = none → P.ids ≠ []) ∧ (∀ s, sel = some s → s.key ∈ P.ids)) :
+    ∃ post shEnd, getLogPosterior Legacy.asIs P sel shared = .ok (post, shEnd) := by
+  unfold getLogPosterior
+  by_cases hpop : P.hasPop = true
+  · have hs : selectIds Legacy.asIs P sel = .ok P.ids := by unfold selectIds; simp only [hpop, if_true]
+    obtain ⟨lls, e2, hc⟩ := createLLs_ok P hw P.ids (fun _ h => h) shared
+    rw [hs]
+    simp only [hc]
+    simp only [hpop, if_true, Legacy.asIs, Bool.false_and, Bool.false_eq_true, if_false]
+    by_cases hcn : P.covNames.isEmpty = true
+    · refine ⟨Posterior.hier lls none, e2, ?_⟩
+      simp only [hcn, if_true]
+    · obtain ⟨M, hM⟩ := fillAll_ok P.data P.covMap P.ids P.covNames hw.covs 0 (fun _ _ => none)
+      have : extractCovariates P.data P.covMap P.ids P.covNames = .ok M := hM
+      refine ⟨Posterior.hier lls (some (M.toLists P.ids.length P.covNames.length)), e2, ?_⟩
+      simp only [hcn, Bool.false_eq_true, if_false, this]
+  · have hpop' : P.hasPop = false := by simpa using hpop
+    obtain ⟨h1, h2⟩ := hsel hpop'
+    have : ∃ i, i ∈ P.ids ∧ selectIds Legacy.asIs P sel = .ok [i] := by
+      unfold selectIds
+      simp only [hpop', Bool.false_eq_true, if_false]
+      cases sel with
+      | none =>
+        rcases hP : P.ids with _ | ⟨j, js⟩
+        · exact absurd hP (h1 rfl)
+        · exact ⟨j, List.mem_cons_self, rfl⟩
+      | some s =>
+        have hk := h2 s rfl
+        refine ⟨s.key, hk, ?_⟩
+        simp only [selectId, Legacy.asIs, Bool.false_eq_true, if_false, hk, if_true]
+    obtain ⟨i, hi, hs⟩ := this
+    obtain ⟨lls, e2, hc⟩ := createLLs_ok P hw [i] (fun j hj => by
+      rcases List.mem_singleton.mp hj with rfl; exact hi) shared
+    have hl := createLLs_spec _ P [i] shared lls e2 hc
+    rw [hs]
+    simp only [hc, hpop', Bool.false_eq_true, if_false]
+    rw [hl]
+    exact ⟨_, _, rfl⟩
+
+/-- **C14 (from the frame to the posterior — the code as it is).** If `set_data` accepts the frame and
+    no time is negative, `get_log_posterior` (with a population model, or for any selector naming one of
+    the individuals) returns a posterior, and it is the one assembled by hand. No hypothesis on the
+    order of rows, the number of individuals or the data type of the selector remains. -/
+theorem C14_posterior_of_frame (cfg : Config) (raw : List (RawRow ℝ)) (P : Problem ℝ)
+    (hset : setData cfg raw = .ok P) (hn : ∀ r ∈ raw, ∀ t, r.time = some t → 0 ≤ t)
+    (sel : Option RawId) (shared : Option (List (Event ℝ)))
+    (hsel : P.hasPop = false → (sel = none → P.ids ≠ []) ∧ (∀ s, sel = some s → s.key ∈ P.ids)) :
+    ∃ post shEnd, getLogPosterior Legacy.asIs P sel shared = .ok (post, shEnd) ∧
+      (P.hasPop = true → ∃ cov, post = .hier (P.ids.map (specIndiv P shared)) cov) ∧
+      (P.hasPop = false → ∃ i ∈ P.ids, post = .single (specIndiv P shared i)) := by
+  obtain ⟨hdata, hids, _, _, _, hout, hnd, hd, hcov⟩ := C14_set_data cfg raw P hset
+  have hw : WellFormed P := by
+    refine ⟨hout, ?_, hcov, ?_⟩
+    · intro regs hregs i hi
+      by_cases hdose : cfg.hasDose = true
+      · obtain ⟨regs', hr', _, hl⟩ := hd hdose
+        rw [hregs] at hr'
+        cases hr'
+        obtain ⟨r, _, hr⟩ := hl i hi
+        exact ⟨r, hr⟩
+      · have := hnd (by simpa using hdose)
+        rw [this] at hregs; cases hregs
+    · intro r hr t ht
+      rw [hdata] at hr
+      unfold cleanData at hr
+      obtain ⟨r0, hr0, rfl⟩ := List.mem_map.mp hr
+      exact hn r0 hr0 t ht
+  obtain ⟨post, shEnd, h⟩ := C14_posterior_exists P hw sel shared hsel
+  obtain ⟨p1, p2⟩ := C14_posterior P sel shared post shEnd h
+  refine ⟨post, shEnd, h, ?_, ?_⟩
+  · intro hp
+    obtain ⟨cov, hc, _⟩ := p1 hp
+    exact ⟨cov, hc⟩
+  · intro hp
+    obtain ⟨i, hi, hpost, _⟩ := p2 hp
+    exact ⟨i, hi, hpost⟩
+
 /-! ## non-vacuity -/
 
 example : unique ["b", "a", "b", "c", "a"] = ["b", "a", "c"] := by decide
@@ -1346,9 +1706,9 @@ example : RawId.key (.int (-3)) = "-3" ∧ RawId.key (.flt 3) = "3.0" ∧ RawId.
 example : specRows ([⟨"1", some 1, some "conc", some 5, none, none⟩, ⟨"2", some 1, some "conc", some 6, none, none⟩,
     ⟨"1", some 2, some "other", some 7, none, none⟩, ⟨"1", some 3, some "conc", none, none, none⟩,
     ⟨"1", some 4, some "conc", some 8, none, none⟩] : List (Row Nat)) "1" "conc" = [(1, 5), (4, 8)] := by decide
-/-- the hypotheses of `C14_posterior_partial` are satisfiable and its conclusion is not an equation
+/-- the hypotheses of `C14_prefix_posterior_partial` are satisfiable and its conclusion is not an equation
     between two errors -/
-example : getLogPosterior Legacy.asIs (exProblem [("1", 1, 1), ("2", 2, 2)] ["1", "2"] false) (some (.str "2")) none
+example : getLogPosterior Legacy.preFix (exProblem [("1", 1, 1), ("2", 2, 2)] ["1", "2"] false) (some (.str "2")) none
     = .ok (.single ⟨"2", [⟨[2], [2]⟩], none⟩, none) := C14_selector_counterexample.2.1
 
 end ChiModel.Problem
